@@ -57,6 +57,27 @@ pub fn roundtrip_u8(c: usize, r: usize) {
     end_reached!();
 }
 
+/// Owned TooDee<()> (zero-sized elements; serialised as `null`s).
+pub fn roundtrip_unit(c: usize, r: usize) {
+    let mut v: Vec<()> = Vec::new();
+    let mut i = 0;
+    while i < c * r {
+        v.push(());
+        i += 1;
+    }
+    let t = TooDee::from_vec(c, r, v);
+    let mut doc = Doc::empty();
+    assert!(t.serialize(DocSer { doc: &mut doc }).is_ok(), "ORACLE: serialising an array failed");
+    check_doc(&doc, c, r);
+    let back: Result<TooDee<()>, E> = TooDee::<()>::deserialize(DocDe { doc: &doc, mode: key_mode() });
+    assert!(back.is_ok(), "ORACLE: deserialising a serialised array failed");
+    let u = back.unwrap();
+    assert!(u.size() == (c, r), "ORACLE: round trip changed the dimensions");
+    assert!(u.data().len() == c * r, "ORACLE: round trip changed the data length");
+    assert!(u == t, "ORACLE: round trip result is not equal to the original");
+    end_reached!();
+}
+
 fn cells_u32() -> [u32; 9] {
     let b = nd::bytes::<9>();
     let mut out = [0u32; 9];
